@@ -109,4 +109,35 @@ def consumeAll (l : Dims) : Raw → List Dims → Raw × List Bool
     let (rf, oks) := consumeAll l r' ds
     (rf, ok :: oks)
 
+/-- why `Processor.Execute` rejects a block in its `executeTxs` loop -/
+inductive BlockErr where
+  | units (e : UnitsErr)      -- `tx.Units` failed
+  | tooLarge (dim : Nat)      -- `ErrInvalidUnitsConsumed: <dim> too large`
+deriving Repr, DecidableEq
+
+/-- the metering part of `Processor.executeTxs` (`chain/processor.go`): for each transaction
+in block order `units, err := tx.Units(...)` (error → the block is rejected), then
+`feeManager.Consume(units, r.GetMaxBlockUnits())` — the **first** failing `Consume` aborts
+the block with `ErrInvalidUnitsConsumed`. `us` are the transactions' `Units` results. -/
+def processTxs (l : Dims) : Raw → List (Except UnitsErr Dims) → Except BlockErr Raw
+  | r, [] => .ok r
+  | _, .error e :: _ => .error (.units e)
+  | r, .ok d :: rest =>
+    match consume r d l with
+    | ((true, _), r') => processTxs l r' rest
+    | ((false, i), _) => .error (.tooLarge i)
+
+/-- the metering part of `Builder.BuildBlock` (`chain/builder.go`), for transactions offered
+in the order the builder reaches `Consume`: a transaction that does not fit is skipped
+(restored to the mempool); if the consumption in the dimension that failed has reached the
+window target, building stops (`errBlockFull`) and nothing further is included. -/
+def buildAll (l target : Dims) : Raw → List Dims → Raw × List Bool
+  | r, [] => (r, [])
+  | r, d :: ds =>
+    match consume r d l with
+    | ((true, _), r') => ((buildAll l target r' ds).1, true :: (buildAll l target r' ds).2)
+    | ((false, i), r') =>
+      if lastConsumed r' i ≥ dget target i then (r', false :: ds.map fun _ => false)
+      else ((buildAll l target r' ds).1, false :: (buildAll l target r' ds).2)
+
 end HyperModel.Units
